@@ -116,6 +116,44 @@ def check_send(n, counts, fault=None):
         uninstall_shim()
 
 
+def check_longlived(nframes):
+    from pycomm3.exceptions import CommError
+    import pycomm3.socket_ as sk
+    shim = SocketShim(budget=10 * nframes + 1000)
+    install_shim(shim)
+    try:
+        s = sk.Socket(1.0)
+        raw = shim.raw
+        for i in range(nframes):
+            L = (i * 7) % 40
+            frame = make_frame(L, i & 0xFF)
+            cut = 1 + (i % (len(frame) - 1)) if i % 3 == 0 else None
+            raw.recv_script = [("data", frame[:cut]), ("data", frame[cut:])] if cut else [("data", frame)]
+            raw.recv_pos = 0
+            try:
+                got = s.receive()
+            except CommError as e:
+                return [Disc("longlived.recv.commerror", f"frame #{i + 1} on one Socket object: complete frame delivered but receive raised {e!r}")]
+            except Exception as e:
+                return [Disc(f"longlived.recv.foreign.{type(e).__name__}", f"frame #{i + 1}: {e!r}")]
+            if got != frame:
+                return [Disc("longlived.recv.bytes", f"frame #{i + 1} on one Socket object: returned {len(got)} bytes, expected {len(frame)}")]
+            if i % 5 == 0:
+                raw.accepted = []
+                raw.send_script = [1, 2] if i % 10 == 0 else []
+                raw.send_calls = 0
+                msg = frame[: 24 + L]
+                try:
+                    s.send(msg)
+                except Exception as e:
+                    return [Disc(f"longlived.send.raises.{type(e).__name__}", f"message #{i + 1}: {e!r}")]
+                if b"".join(raw.accepted) != msg:
+                    return [Disc("longlived.send.bytes", f"message #{i + 1} on one Socket object not delivered verbatim")]
+        return []
+    finally:
+        uninstall_shim()
+
+
 def boundary_set(flen):
     return sorted({c for c in [1, 2, 3, 4, 5, 23, 24, 25, 255, 256, 257, 511, 512, flen - 2, flen - 1] if 0 < c < flen})
 
@@ -134,6 +172,7 @@ def plan(tier):
     for L in BODY_LENS:
         jobs.append({"part": "boundary", "L": L, "max_subset": 3 if tier == "quick" else 15})
         jobs.append({"part": "faults", "L": L})
+    jobs.append({"part": "longlived", "frames": 70000 if tier == "quick" else 200000})
     n = 8 if tier == "quick" else 32
     for i in range(n):
         jobs.append({"part": "random", "what": "recv" if i % 2 else "send", "examples": 900 if tier == "quick" else 8000})
@@ -142,6 +181,12 @@ def plan(tier):
 
 def run_job(ctx, job):
     part = job["part"]
+    if part == "longlived":
+        # one Socket object for the whole life of a connection: more than 65 535 frames / recv calls / sends on the same object
+        for d in check_longlived(job["frames"]):
+            ctx.violation(d, "longlived", {"frames": job["frames"]})
+        ctx.bulk(job["frames"], [hash(("longlived", job["frames"])) & 0xFFFFFFFF, 1], {"recv-composition": job["frames"], "long-lived-frames": job["frames"]})
+        return
     if part == "exh24":
         # compositions of the 24-byte frame = subsets of the 23 interior cut points
         if job.get("sample"):
@@ -219,6 +264,8 @@ def _rec(ctx, L, cuts, fault):
 
 
 def replay(ctx, kind, case):
+    if kind == "longlived":
+        return check_longlived(case["frames"])
     if kind == "recv" or case.get("k") == "recv":
         return check_receive(case["L"], case["cuts"], tuple(case["fault"]) if case.get("fault") else None, case.get("salt", 0))
     return check_send(case["n"], case["counts"], tuple(case["fault"]) if case.get("fault") else None)
